@@ -488,6 +488,7 @@ func (w *pworker) runBlock(b pblock) {
 				x = x + "\n# " + strings.Repeat("é", n/2) + "\n"
 			}
 			w.res.Count("inputs_with_a_line_over_64KiB", map[bool]int64{true: 1, false: 0}[n > 65536])
+			w.wl.Tick() // these inputs are large: one progress line per finished input
 			w.input(x, nil)
 		}
 	case "concurrent":
@@ -501,6 +502,7 @@ func (w *pworker) runBlock(b pblock) {
 		for i, x := range inputs {
 			seq[i] = parseOutcome(x)
 		}
+		w.wl.Tick()
 		idx := w.curIdx
 		w.curIdx++
 		if !w.wl.Begin(w.curBlk, idx, func() any { return mkCase("concurrent", strings.Join(inputs[:3], "\x00"), w.curBlk) }) {
@@ -514,6 +516,11 @@ func (w *pworker) runBlock(b pblock) {
 			go func(g int) {
 				defer wg.Done()
 				for k := 0; k < len(inputs); k++ {
+					if g == 0 && k%50 == 49 {
+						mu.Lock()
+						w.wl.Tick() // eight goroutines burn the stall guard's CPU budget eight times as fast
+						mu.Unlock()
+					}
 					i := (k*7 + g*53) % len(inputs)
 					if got := parseOutcome(inputs[i]); got != seq[i] {
 						mu.Lock()
@@ -545,6 +552,9 @@ func parsesQuick(string) bool { return lastParseOK }
 func (w *pworker) input(x string, p *gen.Prog) bool {
 	idx := w.curIdx
 	w.curIdx++
+	if idx%256 == 255 {
+		w.wl.Tick() // progress between blocks of small inputs on a slow or loaded machine
+	}
 	if !w.wl.Begin(w.curBlk, idx, func() any { return mkCase(w.curKind, x, w.curBlk) }) {
 		return true
 	}
